@@ -95,16 +95,19 @@ SLICED = [
          params=["equiv_zero_reduce", "reduce_super_ufunc"],
          extern={"equivalent(zero_reduce_result, self.fill_value)": "Ok equiv_zero_reduce"},
          requires=["zero_reduce_result = method.reduce([self.fill_value, self.fill_value], **kwargs)",
-                   "reduce_super_ufunc = _reduce_super_ufunc.get(method)"],
-         # the fill correction transcribed by Model/FillRules.v (sum_group_impl, sum_result_fill)
-         requires_nested=[
-             ("missing_counts = counts != n_cols", 2),
-             ("data[missing_counts] = method(data[missing_counts], self.fill_value, **kwargs)", 1),
-             ("data[missing_counts] = method(data[missing_counts], reduce_super_ufunc(self.fill_value, "
-              "(n_cols - counts)[missing_counts])).astype(data.dtype)", 1),
-             ("result_fill_value = reduce_super_ufunc(self.fill_value, n_cols)", 1),
-             ("result_fill_value = method.reduce(np.empty((0,), dtype=self.dtype), **kwargs)", 1),
-         ]),
+                   "reduce_super_ufunc = _reduce_super_ufunc.get(method)"]),
+    # the fill correction of SparseArray.reduce that Model/FillRules.v transcribes by hand (sum_group_impl,
+    # sum_result_fill): these statements must be present, exactly so often, anywhere in the function.  Emitted as the
+    # list `s_reduce_correction_pins`; only the sum_fill_correction theorems depend on it (not the judge).
+    dict(name="s_reduce_correction_pins", file=SA, func="SparseArray.reduce", pins=[
+        ("missing_counts = counts != n_cols", 2),
+        ("data[missing_counts] = method(data[missing_counts], self.fill_value, **kwargs)", 1),
+        ("fill_value = data.dtype.type(self.fill_value)", 1),
+        ("data[missing_counts] = method(data[missing_counts], reduce_super_ufunc(fill_value, "
+         "(n_cols - counts)[missing_counts])).astype(data.dtype)", 1),
+        ("result_fill_value = reduce_super_ufunc(fill_value, n_cols)", 1),
+        ("result_fill_value = method.reduce(np.empty((0,), dtype=self.dtype), **kwargs)", 1),
+    ]),
     # maybe_densify (COO and GCXS): the size test
     dict(_MAYBE, name="s_maybe_densify_coo", file=CO, func="COO.maybe_densify"),
     dict(_MAYBE, name="s_maybe_densify_gcxs", file=GC, func="GCXS.maybe_densify"),
